@@ -24,7 +24,8 @@ def cases(tier, rnd):
             for sizes in itertools.product(sizes_dom, repeat=T):
                 for N in range(1, Nmax + 1):
                     w = [rnd.choice([0.5, 1.0, 2.0, 3.5]) for _ in ks]
-                    yield {"kind": "manual", "keys": [tuple(k) for k in ks], "weights": w, "sizes": list(sizes), "N": N}
+                    order = list(ks); rnd.shuffle(order)          # the dictionary's insertion order is arbitrary (not sorted): keys and weights must stay aligned through it
+                    yield {"kind": "manual", "keys": [tuple(k) for k in order], "weights": w, "sizes": list(sizes), "N": N}
     # histories: sample, re-load the distribution on the same object, sample again (the draw must follow the CURRENT distribution)
     for i in range(20 if tier == "quick" else 100):
         T = rnd.choice((1, 2)); mk = lambda: tuple(rnd.randint(0, 3) for _ in range(T))
